@@ -85,14 +85,7 @@ func c03RulesBase(tier string) []Rule {
 		}},
 		// planned claims are charged with the worst case of the same quantity the filter compares and limits are expressed
 		// in: the instance types' Capacity (not allocatable), maximised per resource and subtracted from every remaining key
-		core.Custom{ID: "C03.PROV4", Kind: "PROV", Run: func(w *core.World, id string) []core.Result {
-			const sm = "sched.subtractMax"
-			rs := core.InstrPresent(w, id, "PROV", sm, `^store &local<\[1\]corev1\.ResourceList>\[0\] = \$1\[.*\]\.Capacity$`, 1, "each instance type contributes its Capacity")
-			rs = append(rs, core.InstrPresent(w, id, "PROV", sm, `^call utils/resources\.MaxResources\(phi\(nil\|append\(phi↺, …\[:\]\)\)\)$`, 1, "the worst case over all instance types is taken")...)
-			rs = append(rs, core.InstrPresent(w, id, "PROV", sm, `^call \(\*apim/api/resource\.Quantity\)\.Sub\(\(apim/api/resource\.Quantity\)\.DeepCopy\(next\(range\(…\)\)#2\), utils/resources\.MaxResources\(phi\(…\)\)\[next\(range\(\$0\)\)#1\]\)$`, 1, "and subtracted from each remaining resource")...)
-			rs = append(rs, core.InstrPresent(w, id, "PROV", sm, `^mapupdate makemap<corev1\.ResourceList>\[next\(range\(\$0\)\)#1\] = \(apim/api/resource\.Quantity\)\.DeepCopy\(next\(range\(\$0\)\)#2\)$`, 1, "the result keeps every key of the remaining list")...)
-			return rs
-		}},
+		core.Custom{ID: "C03.PROV4", Kind: "PROV", Run: subtractMaxRows},
 		// what an existing node is charged with: for a node that is not initialized yet, zero quantities reported by the
 		// node are overridden by the launched NodeClaim's capacity (a device plugin that has not registered reports 0)
 		core.Custom{ID: "C03.VIEW1", Kind: "RET", Run: func(w *core.World, id string) []core.Result {
